@@ -57,6 +57,10 @@ def handle (j : Json) : Except String Json := do
     let g ← jbool j "guard"
     pure (Json.mkObj [("ok", strJ (wordReplace g (toStr k) (toStr v) (toStr s))),
                       ("tok", strJ (tokReplace g (runs (toStr k)) (toStr v) (runs (toStr s))))])
+  | "isw" =>
+    let cps ← jNatList (← jarr j "cps")
+    pure (Json.mkObj [("ok", Json.arr (cps.map fun n => Json.bool (isW (Char.ofNat n))).toArray),
+                      ("in", Json.arr (cps.map fun n => Json.bool (inAlphabet (Char.ofNat n))).toArray)])
   | "transform" =>
     let m ← mapOf (← jobj j "map")
     let g ← jbool j "guard"
